@@ -76,6 +76,7 @@ type c04World struct {
 	failedN map[string]bool
 	// addedDuring: the name was published directly (Add) while its own creation was running
 	addedDuring map[string]bool
+	attempts    map[string]int // creation attempts so far: early references carry their attempt's number
 }
 
 var c04Names = []string{"a", "b"}
@@ -96,6 +97,21 @@ func (w *c04World) exec(ops []c04Op) {
 			}
 			if w.failedN[o.N] && !w.inCreat[o.N] && got != nil && err == nil {
 				w.viol = append(w.viol, fmt.Sprintf("%s(%s) after a failed creation returned an instance with nil error", o.K, o.N))
+			} else if got != nil && err == nil && w.pubs[o.N] == nil && !w.addedDuring[o.N] {
+				// nothing is published under this name: the only thing a look-up may hand out is the
+				// early reference made by the creation attempt that is running right now
+				dc, _ := got.Raw.(*dummyComp)
+				want := fmt.Sprintf("early-%s#%d", o.N, w.attempts[o.N])
+				switch {
+				case !w.inCreat[o.N]:
+					w.viol = append(w.viol, fmt.Sprintf("%s(%s) returned an instance although nothing is published and no creation is running", o.K, o.N))
+				case dc == nil || dc.s != want:
+					have := "a foreign instance"
+					if dc != nil {
+						have = dc.s
+					}
+					w.viol = append(w.viol, fmt.Sprintf("%s(%s) during creation attempt %d returned %s, not the early reference of this attempt", o.K, o.N, w.attempts[o.N], have))
+				}
 			}
 		case "AD":
 			// direct publication (AddSingleton) of a fresh instance, possibly for a name whose
@@ -119,11 +135,13 @@ func (w *c04World) exec(ops []c04Op) {
 				ran = true
 				w.inCreat[o.N] = true
 				w.failedN[o.N] = false
+				w.attempts[o.N]++
+				attempt := w.attempts[o.N]
 				w.reg.AddSingletonFactory(o.N, container.FuncSingletonFactory(func() (*cd.Meta, error) {
 					if o.EarlyF {
 						return nil, errors.New("early factory fails")
 					}
-					return cd.NewMeta(&dummyComp{"early-" + o.N}), nil
+					return cd.NewMeta(&dummyComp{fmt.Sprintf("early-%s#%d", o.N, attempt)}), nil
 				}))
 				w.states[w.tr.Canon(c04Names)] = true
 				w.exec(o.Body)
@@ -254,7 +272,7 @@ func c04Trees(c *core.Ctx) {
 	}
 	Cases(c, gen, func(c *core.Ctx, cs c04Case) {
 		tr := scen.NewTraceSCR(64, 1<<30)
-		w := &c04World{tr: tr, states: states, inCreat: map[string]bool{}, pubs: map[string]*cd.Meta{}, failedN: map[string]bool{}, addedDuring: map[string]bool{}}
+		w := &c04World{tr: tr, states: states, inCreat: map[string]bool{}, pubs: map[string]*cd.Meta{}, failedN: map[string]bool{}, addedDuring: map[string]bool{}, attempts: map[string]int{}}
 		w.reg = tr.Wrap(support.DefaultSingletonComponentRegistry())
 		w.exec(cs.Ops)
 		c.S.Evaluations++
